@@ -38,8 +38,9 @@ theorem push_str_tie (t : Str) (s : St) (hd : DataOk s.hp) (hr : RawOk s.self)
         obtain ⟨c, hsl, hle⟩ := slice_of_write (ρ := Rs Unit) rf st hwb
         have hc1 := eq_true (show r.len ≤ r.len + t.b.length ∧ r.len + t.b.length ≤ c from ⟨by omega, hle⟩)
         have hc2 := eq_true (show t.b.length = r.len + t.b.length - r.len by omega)
+        have hc3 := eq_true (reserve_ok_add hrv)
         cases hs2 : setLen r2 (r.len + t.b.length) with
         | error u => rw [hs2] at hub; exact absurd rfl (hub u)
         | ok r3 =>
-          rt_step [hne, call_norm, hres, hrv, stepOfRes, hsl, hc1, hc2, Nat.zero_add, hwb, set_len_step, hs2, norm_next, norm_done, norm_pidx, norm_ub, resOf]
+          rt_step [hne, call_norm, hres, hrv, stepOfRes, hsl, hc1, hc2, hc3, Nat.zero_add, hwb, set_len_step, hs2, norm_next, norm_done, norm_pidx, norm_ub, resOf]
 end LS.GenTie
